@@ -7,11 +7,12 @@ import (
 	"math"
 	"math/big"
 	"os"
-	"reflect"
 	"os/exec"
+	"reflect"
 	"runtime/debug"
 	"strconv"
 	"sync"
+	"syscall"
 	"time"
 
 	"harness/hx"
@@ -436,6 +437,10 @@ func groupObjects(s *sink, g *hx.Gen) {
 // groupCorrupt: an accepted value corrupted at one position at a time; the rejection must carry
 // the path to that position (C17). The expected path is computed from the position alone.
 func groupCorrupt(s *sink, g *hx.Gen) {
+	if g.R.Intn(12) == 0 {
+		groupCorruptLongList(s, g)
+		return
+	}
 	t := g.Schema(0, nil)
 	g.SetNoShorthand(true)
 	v := g.Value(t, hx.Env{}, 0)
@@ -450,8 +455,84 @@ func groupCorrupt(s *sink, g *hx.Gen) {
 	corruptWith(s, g, "V", t, res.V)
 }
 
+// groupCorruptLongList: the same question for lists of 60 to 260 items (samples, log lines), alone and as a
+// property, with the single fault planted around the positions where an implementation working in blocks of
+// 2^k items would restart its count.
+func groupCorruptLongList(s *sink, g *hx.Gen) {
+	var item *hx.Ty
+	if g.R.Intn(2) == 0 {
+		item = g.Scalar()
+	} else {
+		item = g.Object(2, nil, 1)
+	}
+	t := &hx.Ty{T: "list", Item: item}
+	n := 60 + g.R.Intn(200)
+	v := &hx.Val{Kind: "l"}
+	g.SetNoShorthand(true)
+	isch := item.Build()
+	var good []*hx.Val
+	for i := 0; i < n; i++ {
+		var e *hx.Val
+		for try := 0; try < 4 && e == nil; try++ {
+			c := g.Value(item, hx.Env{}, 2)
+			if r := hx.Guard(func() hx.Result { r, _ := hx.RunOpRaw("U", isch, c.ToGo()); return r }); r.R == "ok" {
+				e = c
+				good = append(good, c)
+			}
+		}
+		if e == nil {
+			if len(good) == 0 {
+				continue
+			}
+			e = good[g.R.Intn(len(good))]
+		}
+		v.L = append(v.L, e)
+	}
+	g.SetNoShorthand(false)
+	n = len(v.L)
+	if n < 40 {
+		s.stats["corrupt:base-rejected"]++
+		return
+	}
+	if g.R.Intn(2) == 0 {
+		t = &hx.Ty{T: "obj", ID: "Series", Props: []hx.NamedProp{{Name: "samples", P: &hx.Prop{Ty: t, Required: true}}}}
+		v = hx.StrAny([2]*hx.Val{hx.Str("samples"), v})
+	}
+	res := hx.Guard(func() hx.Result { r, _ := hx.RunOpRaw("U", t.Build(), v.ToGo()); return r })
+	if res.R != "ok" {
+		s.stats["corrupt:base-rejected"]++
+		return
+	}
+	s.stats["corrupt:long-list"]++
+	near := func(c hx.Corruption) bool {
+		for _, seg := range c.Path {
+			if len(seg) > 2 && seg[0] == '[' {
+				if i, err := strconv.Atoi(seg[1 : len(seg)-1]); err == nil {
+					return i >= n-2 || i%32 <= 1 || i%32 == 31 || i%7 == 0
+				}
+			}
+		}
+		return false
+	}
+	for _, opv := range []struct {
+		op string
+		v  *hx.Val
+	}{{"U", v}, {"V", res.V}} {
+		var cs []hx.Corruption
+		for _, c := range hx.Corruptions(t, opv.v, hx.Env{}) {
+			if near(c) {
+				cs = append(cs, c)
+			}
+		}
+		corruptCases(s, g, opv.op, t, cs)
+	}
+}
+
 func corruptWith(s *sink, g *hx.Gen, op string, t *hx.Ty, v *hx.Val) {
-	cs := hx.Corruptions(t, v, hx.Env{})
+	corruptCases(s, g, op, t, hx.Corruptions(t, v, hx.Env{}))
+}
+
+func corruptCases(s *sink, g *hx.Gen, op string, t *hx.Ty, cs []hx.Corruption) {
 	if len(cs) > 40 {
 		g.R.Shuffle(len(cs), func(i, j int) { cs[i], cs[j] = cs[j], cs[i] })
 		cs = cs[:40]
@@ -750,6 +831,9 @@ func runCaseIsolated(c hx.Case) hx.Result {
 
 func opChild() {
 	debug.SetMaxStack(64 << 20)
+	// a ceiling on the address space: an operation whose memory doubles per nesting level dies here
+	// instead of taking the machine with it
+	_ = syscall.Setrlimit(syscall.RLIMIT_AS, &syscall.Rlimit{Cur: 6 << 30, Max: 6 << 30})
 	var c hx.Case
 	if err := json.NewDecoder(os.Stdin).Decode(&c); err != nil {
 		fmt.Fprintln(os.Stderr, err)
@@ -1193,14 +1277,14 @@ func groupErrorValues(s *sink, g *hx.Gen) {
 	sch := t.Build()
 	good := func(n string) map[string]any { return map[string]any{"name": n, "limits": map[string]any{"cpu": 1}} }
 	docs := []any{
-		map[string]any{"containers": []any{good("a"), map[string]any{"limits": map[string]any{"cpu": 1}}}},                        // containers[1].name missing
-		map[string]any{"sidecars": map[string]any{"log": map[string]any{"name": "l", "limits": map[string]any{"mem": 2}}}},         // sidecars[log].limits.cpu missing
-		map[string]any{"containers": []any{good("a"), good("b"), "bare string"}},                                                    // containers[2] not a map
-		map[string]any{"sidecars": map[string]any{"proxy": map[string]any{"limits": map[string]any{"cpu": 1}}}},                    // sidecars[proxy].name missing
-		map[string]any{"containers": []any{map[string]any{"name": "x", "limits": "not a map"}}},                                    // containers[0].limits not a map
-		map[string]any{"containers": []any{good("a"), good("b"), good("c"), map[string]any{"name": "d", "legacy": "x"}}},           // containers[3].legacy disabled (no reason)
-		map[string]any{"sidecars": map[string]any{"s": map[string]any{"name": "d", "legacy": "y"}}},                                 // sidecars[s].legacy disabled (no reason)
-		map[string]any{"containers": []any{map[string]any{"name": "d", "old": 1}}},                                                 // containers[0].old disabled (with reason)
+		map[string]any{"containers": []any{good("a"), map[string]any{"limits": map[string]any{"cpu": 1}}}},                 // containers[1].name missing
+		map[string]any{"sidecars": map[string]any{"log": map[string]any{"name": "l", "limits": map[string]any{"mem": 2}}}}, // sidecars[log].limits.cpu missing
+		map[string]any{"containers": []any{good("a"), good("b"), "bare string"}},                                           // containers[2] not a map
+		map[string]any{"sidecars": map[string]any{"proxy": map[string]any{"limits": map[string]any{"cpu": 1}}}},            // sidecars[proxy].name missing
+		map[string]any{"containers": []any{map[string]any{"name": "x", "limits": "not a map"}}},                            // containers[0].limits not a map
+		map[string]any{"containers": []any{good("a"), good("b"), good("c"), map[string]any{"name": "d", "legacy": "x"}}},   // containers[3].legacy disabled (no reason)
+		map[string]any{"sidecars": map[string]any{"s": map[string]any{"name": "d", "legacy": "y"}}},                        // sidecars[s].legacy disabled (no reason)
+		map[string]any{"containers": []any{map[string]any{"name": "d", "old": 1}}},                                         // containers[0].old disabled (with reason)
 	}
 	type kept struct {
 		op   string
@@ -1308,6 +1392,7 @@ func groupDeepValues(s *sink) {
 		}
 		return m
 	}
+	groupDeepAny(s)
 	v := deep(40, true)
 	for _, op := range []string{"U", "V", "S", "C"} {
 		s.nextID++
@@ -1322,6 +1407,55 @@ func groupDeepValues(s *sink) {
 		if res.R == "fuel" {
 			s.finding(Finding{Prop: "C04", What: "operation " + op + " on a value 40 levels deep (recursive schema through a list and a map) does not return within the deadline",
 				Cases: []int{c.ID}, Schema: t, Detail: []string{"deep-value", res.Msg}})
+		}
+	}
+}
+
+// groupDeepAny: values 48 container levels deep below an `any` position, ending in a leaf the any type
+// takes (an integer) or refuses (null): every operation returns - with work that grows with the depth, not
+// with 2^depth (an error text that quotes the level below twice never finishes at this depth). Each case in
+// a child process with a memory ceiling and a deadline; differential like every other case.
+func groupDeepAny(s *sink) {
+	anyT := &hx.Ty{T: "any"}
+	holder := &hx.Ty{T: "obj", ID: "Holder", Props: []hx.NamedProp{{Name: "payload", P: &hx.Prop{Ty: anyT}}}}
+	wrap := func(shape int, d int, inner *hx.Val) *hx.Val {
+		switch (shape + d*(shape/3)) % 3 {
+		case 0:
+			return hx.List(inner)
+		case 1:
+			return hx.StrAny([2]*hx.Val{hx.Str("k"), inner})
+		default:
+			return hx.AnyAny([2]*hx.Val{hx.Str("k"), inner})
+		}
+	}
+	for shape := 0; shape < 4; shape++ {
+		for _, leaf := range []*hx.Val{hx.Nil(), hx.Int("int64", 7)} {
+			v := leaf
+			for d := 0; d < 48; d++ {
+				v = wrap(shape, d, v)
+			}
+			for ti, t := range []*hx.Ty{anyT, holder} {
+				in := v
+				if ti == 1 {
+					in = hx.StrAny([2]*hx.Val{hx.Str("payload"), v})
+				}
+				for _, op := range []string{"U", "V", "C"} {
+					s.nextID++
+					c := hx.Case{ID: s.nextID, Op: op, Schema: t, V: in, Ext: hx.MkExt(t, in), Fuel: 4000, Cmp: "class", Note: "deep-any"}
+					b, _ := json.Marshal(c)
+					s.cases.Write(b)
+					s.cases.WriteByte('\n')
+					res := runCaseIsolated(c)
+					rb, _ := json.Marshal(res)
+					s.results.Write(rb)
+					s.results.WriteByte('\n')
+					s.stats["witness:deep-any"]++
+					if res.R == "fuel" {
+						s.finding(Finding{Prop: "C04", What: "operation " + op + " on a value 48 levels deep below an any-typed position does not return within the deadline and the memory ceiling",
+							Cases: []int{c.ID}, Schema: t, Detail: []string{"deep-any", fmt.Sprintf("shape %d, leaf %s", shape, leaf.Kind), res.Msg}})
+					}
+				}
+			}
 		}
 	}
 }
